@@ -311,7 +311,7 @@ class FnDep:
                     else:
                         constraints.append((d, [p.local], "addr", m))
                 else:
-                    if not self.holds_ref(d):
+                    if not self.holds_ref(d) and body.local_tk(d).get("k") != "ptr":
                         continue
                     srcs = [o.local for o in ins.ops if o.place is not None]
                     dp = ins.discr_place()
@@ -321,6 +321,10 @@ class FnDep:
                         constraints.append((d, srcs, "copy", None))
             elif ins.kind == "call" and ins.dest is not None:
                 d = ins.dest.local
+                tk = body.local_tk(d)
+                if ins.dest.is_local and (tk.get("k") == "ptr" or (tk.get("k") == "adt" and tk.get("p") == "alloc::boxed::Box")):
+                    # a fresh heap allocation: writes through pointers derived from it define the owner local
+                    pt[d].add((d, True))
                 if not self.holds_ref(d):
                     continue
                 srcs = [o.local for o in ins.args if o.place is not None]
